@@ -662,7 +662,13 @@ func UnfoldBooleanAction(unfoldOpts BooleanUnfold) RewriteAction {
 		}
 
 		if option.Default != nil {
-			if val, ok := option.Default.ArgsValues[0].(bool); ok && val {
+			// an option that was already unfolded carries an empty default
+			defaultsToTrue := false
+			if len(option.Default.ArgsValues) != 0 {
+				defaultsToTrue, _ = option.Default.ArgsValues[0].(bool)
+			}
+
+			if defaultsToTrue {
 				newOpts[0].Default = &ast.OptionDefault{}
 			} else {
 				newOpts[1].Default = &ast.OptionDefault{}
